@@ -17,7 +17,7 @@ local name."""
 import ast
 from ..core import walk_own, norm, is_self_attr, parent_map, AnalysisError
 from ..report import Ob, Floor
-from ..rules import plumb, twin, loops, gens
+from ..rules import plumb, twin, loops, gens, pure
 from ..abseval import Evaluator, Opaque
 from .. import exceptions
 from .c18 import writer_obligations
@@ -233,6 +233,7 @@ def check(ctx, tier):
     obs += ctx.attempt(shacl_paths, ctx, "D-e", default=[])
     obs += ctx.attempt(label_tables, ctx, "D-f", default=[])
     obs += ctx.attempt(lambda c, cl: gens.check(c, cl)[0], ctx, "D-f", default=[])
+    obs += ctx.attempt(lambda c, cl: pure.fresh_receivers(c, cl)[0], ctx, "D-g", default=[])
     exceptions.apply(obs)
     return {"obs": obs, "floors": [Floor("shapes_namespace call sites", n_pl, 6), Floor("prefix insertion sites", n_g, 3), Floor("emission loops", n_l, 4)],
             "explanation": "Closedness and well-formedness clauses visible in the code: every label producer receives the configured "
